@@ -21,7 +21,10 @@ type candVotes struct {
 	Votes *big.Int
 }
 
-func (cv candVotes) String() string { return cv.Addr.Hex()[:10] + "=" + cv.Votes.String() }
+func (cv candVotes) String() string {
+	h := cv.Addr.Hex()
+	return h[:10] + ".." + h[len(h)-2:] + "=" + cv.Votes.String()
+}
 
 // expectedTop: all accounts whose profile says isCandidate=true in the given account state,
 // sorted by votes descending, ties by address ascending, cut to max.
